@@ -50,7 +50,8 @@ def cases(tier, seed):
     dims = [('ninst', [1, 2, 3]), ('nbeads', [1, 0, 2]), ('nsamples', [2, 1, 3, 4]), ('gf', [0.85, 0.3, 1.0]), ('cont', ['int', 'float', 'double']),
             ('neg', [False, True]), ('hist', [True, False]), ('units', ['mixed', 'all-mef', 'none', 'channel']),
             ('res', ['same', 'mixed']), ('cluster', ['all', 'second-only', 'first-only']),
-            ('nevents', ['many', 'smallest-accepted', 'one-more'])]       # 400 events is the smallest file the workflow accepts
+            ('nevents', ['many', 'smallest-accepted', 'one-more']),
+            ('failed_row', ['none', 'first', 'middle'])]              # a row whose file does not exist, listed above the rows under test       # 400 events is the smallest file the workflow accepts
     for cfg in explore.deviations(dims, 1 if tier == 'quick' else 2):
         yield dict(kind='experiment', cfg=cfg)
 
@@ -129,6 +130,9 @@ def build_experiment(c, d):
             samples.append(dict(id='S%d' % (k + 1), inst=inst['id'], beads=mybeads[(k // max(1, len(insts))) % len(mybeads)]['id'] if mybeads else None, file='sub/cells%d.fcs' % k,
                                 gate_fraction=cfg['gf'], units={inst['fl'][0]: u[0], inst['fl'][1]: u[1]}, inst_obj=inst))
         hist = cfg['hist']
+        if cfg.get('failed_row', 'none') != 'none' and samples:
+            bad = dict(samples[0], id='SX', file='sub/no_such_file.fcs', expect_error=True)
+            samples.insert(0 if cfg['failed_row'] == 'first' else max(1, len(samples) // 2), bad)
     wb = os.path.join(d, 'experiment.xlsx')
     mcols, ucols = [], []
     for b in beads:
@@ -247,6 +251,12 @@ def run_case(c):
                 sid = srow['id']
                 what = 'sample row %s (units %s, gate fraction %r, file %s)' % (sid, srow['units'], srow['gate_fraction'], srow['file'])
                 s = got.get(sid)
+                if srow.get('expect_error'):
+                    if not isinstance(s, Exception):
+                        res.violation('failed-row-not-reported', '%s names a file that does not exist but was not reported as that row\'s error' % what, one)
+                    else:
+                        res.ok('row:failed', True)
+                    continue
                 if isinstance(s, Exception) or s is None:
                     res.violation('row-failed', '%s failed in a well-formed experiment: %s' % (what, s), one)
                     continue
